@@ -466,3 +466,120 @@ Qed.
 Check C02_other_arms_ignore_callback : forall b, src_calls_function b = false ->
   forall cb cb' args st, builtin_full cb b args st = builtin_full cb' b args st.
 Print Assumptions C02_other_arms_ignore_callback.
+
+(* ================================================================================================
+   LET round (proofs/C02Wf.v): WELL-FORMEDNESS IS AN INVARIANT.  [cfg_wf] (the scope chain mentions
+   existing function cells only) was a hypothesis on the starting configuration of the eval-twice /
+   let-abstraction theorems.  It is preserved by every evaluation (all expression forms, FunctionDef::call,
+   every depth), every result mentions existing cells only and the store never shrinks — for every
+   operator / built-in implementation that creates no dangling cell ([ops_wf], discharged for binop_impl,
+   builtin_impl, builtin_full) — hence it holds after ANY statement sequence from the initial
+   configuration, and eval-twice holds there without any hypothesis on the configuration.
+   ================================================================================================ *)
+Require Import Blots.proofs.C02Wf.
+
+Theorem C02_cfg_wf_preserved_generic : forall release bi bu, ops_wf bi bu ->
+  forall d e c, wfc c ->
+    let x := evalD release bi bu d c e in
+    length (fst c) <= length (fst (snd x)) /\ wfc (snd x) /\
+    (forall v, fst x = Ok v -> ids_lt (length (fst (snd x))) v = true).
+Proof. intros release bi bu [H1 H2] d e c Hc. exact (evalD_wf release bi bu H1 H2 d e c Hc). Qed.
+Check C02_cfg_wf_preserved_generic : forall release bi bu, ops_wf bi bu ->
+  forall d e c, wfc c ->
+    let x := evalD release bi bu d c e in
+    length (fst c) <= length (fst (snd x)) /\ wfc (snd x) /\
+    (forall v, fst x = Ok v -> ids_lt (length (fst (snd x))) v = true).
+Print Assumptions C02_cfg_wf_preserved_generic.
+
+Theorem C02_ops_create_no_dangling_cell : ops_wf binop_impl builtin_impl /\ ops_wf binop_impl builtin_full.
+Proof. split; [exact ops_wf_inst|exact ops_wf_full]. Qed.
+Check C02_ops_create_no_dangling_cell : ops_wf binop_impl builtin_impl /\ ops_wf binop_impl builtin_full.
+Print Assumptions C02_ops_create_no_dangling_cell.
+
+Theorem C02_cfg_wf_preserved : forall release d e c r c',
+  cfg_wf c = true -> evalD release binop_impl builtin_impl d c e = (r, c') ->
+  cfg_wf c' = true /\ length (fst c) <= length (fst c') /\ (forall v, r = Ok v -> ids_lt (length (fst c')) v = true).
+Proof. exact evalD_cfg_wf. Qed.
+Check C02_cfg_wf_preserved : forall release d e c r c',
+  cfg_wf c = true -> evalD release binop_impl builtin_impl d c e = (r, c') ->
+  cfg_wf c' = true /\ length (fst c) <= length (fst c') /\ (forall v, r = Ok v -> ids_lt (length (fst c')) v = true).
+Print Assumptions C02_cfg_wf_preserved.
+
+Theorem C02_cfg_wf_preserved_fullbi : forall release d e c r c',
+  cfg_wf c = true -> evalD release binop_impl builtin_full d c e = (r, c') ->
+  cfg_wf c' = true /\ length (fst c) <= length (fst c') /\ (forall v, r = Ok v -> ids_lt (length (fst c')) v = true).
+Proof. exact evalD_cfg_wf_full. Qed.
+Check C02_cfg_wf_preserved_fullbi : forall release d e c r c',
+  cfg_wf c = true -> evalD release binop_impl builtin_full d c e = (r, c') ->
+  cfg_wf c' = true /\ length (fst c) <= length (fst c') /\ (forall v, r = Ok v -> ids_lt (length (fst c')) v = true).
+Print Assumptions C02_cfg_wf_preserved_fullbi.
+
+(* after any program (CLI loop: stops at the first failing statement) and after every statement of a session
+   (failures included), from the initial configuration with function-free inputs *)
+Theorem C02_cfg_wf_after_any_program : forall release d0 inputs prog,
+  frame_lt 0 inputs = true ->
+  cfg_wf (s_cfg (fst (run (evalD release binop_impl builtin_full d0) (init_session inputs) prog))) = true /\
+  forall stop, Forall (fun rc => cfg_wf (snd rc) = true)
+                      (run_trace (evalD release binop_impl builtin_full d0) stop (init_session inputs) prog).
+Proof.
+  intros release d0 inputs prog Hi. split; [exact (program_cfg_wf_full release d0 inputs prog Hi)|].
+  intros stop. exact (session_cfg_wf_full release d0 stop inputs prog Hi).
+Qed.
+Check C02_cfg_wf_after_any_program : forall release d0 inputs prog,
+  frame_lt 0 inputs = true ->
+  cfg_wf (s_cfg (fst (run (evalD release binop_impl builtin_full d0) (init_session inputs) prog))) = true /\
+  forall stop, Forall (fun rc => cfg_wf (snd rc) = true)
+                      (run_trace (evalD release binop_impl builtin_full d0) stop (init_session inputs) prog).
+Print Assumptions C02_cfg_wf_after_any_program.
+
+Theorem C02_eval_twice_after_any_program : forall release d0 d inputs prog e r1 c1 r2 c2,
+  frame_lt 0 inputs = true -> no_assign e = true ->
+  let c := s_cfg (fst (run (evalD release binop_impl builtin_impl d0) (init_session inputs) prog)) in
+  evalD release binop_impl builtin_impl d c e = (r1, c1) ->
+  evalD release binop_impl builtin_impl d c1 e = (r2, c2) ->
+  osame r1 r2 /\ snd c2 = snd c /\ snd c1 = snd c.
+Proof. exact eval_twice_after_any_program. Qed.
+Check C02_eval_twice_after_any_program : forall release d0 d inputs prog e r1 c1 r2 c2,
+  frame_lt 0 inputs = true -> no_assign e = true ->
+  let c := s_cfg (fst (run (evalD release binop_impl builtin_impl d0) (init_session inputs) prog)) in
+  evalD release binop_impl builtin_impl d c e = (r1, c1) ->
+  evalD release binop_impl builtin_impl d c1 e = (r2, c2) ->
+  osame r1 r2 /\ snd c2 = snd c /\ snd c1 = snd c.
+Print Assumptions C02_eval_twice_after_any_program.
+
+Theorem C02_eval_twice_after_any_program_fullbi : forall release d0 d inputs prog e r1 c1 r2 c2,
+  frame_lt 0 inputs = true -> no_assign e = true ->
+  let c := s_cfg (fst (run (evalD release binop_impl builtin_full d0) (init_session inputs) prog)) in
+  evalD release binop_impl builtin_full d c e = (r1, c1) ->
+  evalD release binop_impl builtin_full d c1 e = (r2, c2) ->
+  osame r1 r2 /\ snd c2 = snd c /\ snd c1 = snd c.
+Proof. exact eval_twice_after_any_program_full. Qed.
+Check C02_eval_twice_after_any_program_fullbi : forall release d0 d inputs prog e r1 c1 r2 c2,
+  frame_lt 0 inputs = true -> no_assign e = true ->
+  let c := s_cfg (fst (run (evalD release binop_impl builtin_full d0) (init_session inputs) prog)) in
+  evalD release binop_impl builtin_full d c e = (r1, c1) ->
+  evalD release binop_impl builtin_full d c1 e = (r2, c2) ->
+  osame r1 r2 /\ snd c2 = snd c /\ snd c1 = snd c.
+Print Assumptions C02_eval_twice_after_any_program_fullbi.
+
+(* a program that creates named and anonymous closures (one of them inside a do-block, one through map), then an
+   assignment-free expression evaluated twice after it: 3 cells after the program, 2 more per evaluation *)
+Definition wfx_prog : list stmt :=
+  [SExpr (EAssign "k" (ENum (num_of_Z 2)));
+   SExpr (EAssign "f" (ELam [AReq "a"] (EBin Multiply (EId "a") (EId "k"))));
+   SExpr (EAssign "gs" (EList [Cm [] (ELam [AReq "b"] (ECall (EId "f") [EId "b"])) None;
+                               Cm [] (EDo [Cm [] (EAssign "h" (ELam [AReq "c"] (EId "c"))) None]
+                                          (Cm [] (EId "h") None)) None]))].
+Definition wfx_expr : expr :=
+  EList [Cm [] (ECall (EBuiltin B_map) [EList [Cm [] (ENum (num_of_Z 1)) None]; EAccess (EId "gs") (ENum (num_of_Z 0))]) None;
+         Cm [] (ELam [AReq "z"] (ECall (EId "f") [EId "z"])) None;
+         Cm [] (ECall (EBuiltin B_sort_by) [EList [Cm [] (ENum (num_of_Z 3)) None; Cm [] (ENum (num_of_Z 1)) None];
+                                            ELam [AReq "q"] (EUn Negate (EId "q"))]) None].
+Example C02_eval_twice_after_program_example :
+  let c := s_cfg (fst (run (evalD true binop_impl builtin_full 8) (init_session []) wfx_prog)) in
+  let r1 := evalD true binop_impl builtin_full 8 c wfx_expr in
+  let r2 := evalD true binop_impl builtin_full 8 (snd r1) wfx_expr in
+  no_assign wfx_expr = true /\ length (fst c) = 3 /\ cfg_wf c = true /\
+  is_ok (fst r1) = true /\ length (fst (snd r1)) = 5 /\ length (fst (snd r2)) = 7 /\
+  fst r1 <> fst r2 /\ osame (fst r1) (fst r2).
+Proof. vm_compute. repeat split. intros H; discriminate H. Qed.
